@@ -19,6 +19,8 @@ func init() {
 			c.run("C01-R3", "SIBLING: compression decided by one shared pure function", c01R3)
 			c.run("C01-R4", "SIBLING: per-file exchange order and version dispatch agree", c01R4)
 			c.run("C01-R5", "GUARD-DOM: negotiated protocol is the minimum of both ends", func(c *Ctx) { c14R3(c) })
+			c.run("C01-R6", "PAIR: open files do not accumulate over the per-file loops", c01R6)
+			c.run("C01-S4", "shared with C15-R3: archive reader/writer close the previous entry's file", c15R3)
 			c.run("C01-S1", "shared with C02: digest compare and saved==size gates dominate success", func(c *Ctx) { c02Digest(c); c02SavedSize(c); c02OneStream(c) })
 			c.run("C01-S2", "shared with C07-R5: the names shown are the names written", c07R5)
 			c.run("C01-S3", "shared with C08-R1/R2: a resumed file is cut at the offset both ends proved equal", func(c *Ctx) { c08R1(c); c08R2(c) })
@@ -385,5 +387,92 @@ func c01R4(c *Ctx) {
 			}
 		}
 		c.check(skip, fname+"/nil-file-skips", c.pos(side.f.Pos()), "an entry without file content skips the data exchange", "entries without file content are no longer skipped on this side")
+	}
+}
+
+// c01R6: open files do not accumulate over the per-file loops: no Close is deferred inside a
+// loop, and every path from a non-nil file to the next file / return closes it (directly, or
+// by handing it to a function that defers Close on that parameter at its entry).
+func c01R6(c *Ctx) {
+	closesParamAtEntry := func(f *ssa.Function, idx int) bool {
+		if f == nil || len(f.Blocks) == 0 || idx >= len(f.Params) {
+			return false
+		}
+		for _, in := range f.Blocks[0].Instrs {
+			if d, ok := in.(*ssa.Defer); ok && d.Call.IsInvoke() && d.Call.Method.Name() == "Close" && d.Call.Value == ssa.Value(f.Params[idx]) {
+				return true
+			}
+		}
+		return false
+	}
+	for _, side := range []struct {
+		fn    string
+		names []string
+	}{{"trzszTransfer.sendFiles", []string{tT + "sendFileNameV3", tT + "sendFileName"}}, {"trzszTransfer.recvFiles", []string{tT + "recvFileNameV3", tT + "recvFileName"}}} {
+		f := c.fn(side.fn)
+		// the file value: phi of the name stage's first result
+		var fileV ssa.Value
+		for _, b := range f.Blocks {
+			i := blockIf(b)
+			if i == nil {
+				continue
+			}
+			op, x, y, ok := cmpFact(normFact(fact{V: i.Cond, Pol: true}))
+			if !ok || op != token.EQL || !isNilConst(y) {
+				continue
+			}
+			for _, l := range origins(x, originOpts{}) {
+				if call, idx := callOf(l.V); call != nil && idx == 0 && idIs(side.names...)(calleeID(&call.Call)) {
+					fileV = x
+					// non-nil edge
+					start := b.Succs[1]
+					isClose := func(in ssa.Instruction) bool {
+						ci, ok := in.(ssa.CallInstruction)
+						if !ok {
+							return false
+						}
+						if _, isDefer := in.(*ssa.Defer); isDefer {
+							return false
+						}
+						cc := ci.Common()
+						if cc.IsInvoke() && cc.Method.Name() == "Close" && sameValue(cc.Value, fileV) {
+							return true
+						}
+						if callee := cc.StaticCallee(); callee != nil {
+							for ai, a := range cc.Args {
+								if sameValue(a, fileV) && closesParamAtEntry(callee, ai) {
+									return true
+								}
+							}
+						}
+						return false
+					}
+					hit, path := reachFrom(start, 0, func(in ssa.Instruction) bool {
+						if isReturn(in) {
+							return true
+						}
+						ci, ok := in.(ssa.CallInstruction)
+						return ok && idIs(side.names...)(calleeID(ci.Common()))
+					}, isClose)
+					c.check(hit == nil, side.fn+"/file-closed-per-iteration", c.ipos(i), "every file is closed before the next file is started or the function returns",
+						"a file opened for one entry is still open when the next entry starts (or on return): open files grow with the number of files in a transfer", c.pathStr(path)...)
+				}
+			}
+		}
+		if fileV == nil {
+			c.lost("file != nil test in " + side.fn)
+		}
+	}
+	// no Close deferred inside a loop of the per-file code
+	for _, name := range []string{"trzszTransfer.sendFiles", "archiveFileReader.Read", "archiveFileWriter.Write"} {
+		f := c.fn(name)
+		eachInstr(f, func(in ssa.Instruction) {
+			d, ok := in.(*ssa.Defer)
+			if !ok || !(d.Call.IsInvoke() && d.Call.Method.Name() == "Close") {
+				return
+			}
+			hit, _ := reachAvoid(d, func(x ssa.Instruction) bool { return x == ssa.Instruction(d) }, nil)
+			c.check(hit == nil, name+"/no-defer-close-in-loop", c.ipos(d), "Close is not deferred inside a loop", "Close is deferred inside a loop: every file of the transfer stays open until the function returns")
+		})
 	}
 }
